@@ -110,6 +110,8 @@ func Ops() []*core.Op {
 	return []*core.Op{
 		viewOp(),
 		syncedOp(),
+		accountOp(),
+		churnOp(),
 		{
 			Name: "c04.history",
 			Doc:  "two-pass histories through the REAL provisioner: Provisioner.Schedule (commit trace) -> Provisioner.CreateNodeClaims/Create -> Cluster.Synced / Provisioner.Reconcile gate -> real lifecycle controller (launch / registration / initialization) against a provider that launches an adversarially chosen permitted (instance type, offering) -> state informer -> Provisioner.Schedule again at every lifecycle stage with the same pods pending; judged by Karp.Spec.NeedCapacity",
